@@ -104,7 +104,14 @@ func runC03(c *harness.Ctx, idx int) {
 		}
 		msg = buf[:er.n]
 	} else {
-		msg = ref.EncodeWith(w, wv.Elem(), &ref.EncodeOpts{Order: r.Perm})
+		// a foreign writer may also leave out fields it considers unset (any non-required one)
+		omit := 0
+		if r.Bool() {
+			omit = 1 + r.Intn(3)
+		}
+		msg = ref.EncodeWith(w, wv.Elem(), &ref.EncodeOpts{Order: r.Perm, Omit: func(_ *schema.Struct, f *schema.Field) bool {
+			return omit > 0 && f.Req != schema.Required && r.Intn(10) < omit
+		}})
 	}
 	msgLen := len(msg)
 	if r.Chance(1, 3) {
